@@ -174,7 +174,7 @@ func checkGuardsDominateDraws(p *core.Program, r *core.Report, roles *Roles, cg,
 		name := core.FuncName(fn)
 		loops := core.Loops(fn)
 		nDraw := 0
-		for _, site := range roles.DrawSites {
+		for _, site := range roles.ChoiceSites {
 			if site.Parent() != fn {
 				continue
 			}
